@@ -269,6 +269,29 @@ def step (v : Variant) (s : St) : Op → St
 
 def run (v : Variant) (s : St) (ops : List Op) : St := ops.foldl (step v) s
 
+/-! ## Finer steps (only for the recorded finding `evict-close-window`)
+
+`KickOldConnection` releases the registry lock between removing the old connection from the
+maps and closing its stream.  `FineOp` exposes that point; the theorems are about `Op`/`run`. -/
+
+inductive FineOp where
+  | op (o : Op)
+  | kickLock (x c : Nat)   -- KickOldConnection(x, newConnID = c) up to `r.mu.Unlock()`
+  | kickIO (c : Nat)       -- … the rest: kick command and `stream.Close()` of the kicked connection c
+deriving DecidableEq, Repr
+
+def stepFine (v : Variant) (s : St) : FineOp → St
+  | .op o => step v s o
+  | .kickLock x c' =>
+    match s.idx x with
+    | none => s
+    | some o =>
+      if (s.obj o).connID = c' then s
+      else { s with idx := unindex v s o, connMap := upd s.connMap (s.obj o).connID none }
+  | .kickIO c => { s with closed := upd s.closed c true, evicted := upd s.evicted c true }
+
+def runFine (v : Variant) (s : St) (ops : List FineOp) : St := ops.foldl (stepFine v) s
+
 /-! ## Observation (what the lookups and counters answer) -/
 
 /-- `GetControlConnectionByClientID(x)`: the fields of the object returned, and whether
